@@ -6,7 +6,48 @@ from common import REPO, hx  # noqa: F401
 
 
 def rand_bytes(rng, n, style=None):
-    style = style or rng.choice(['uniform', 'uniform', 'ff', 'zero', 'bits', 'ramp', 'const', 'rows', 'single', 'records'])
+    style = style or rng.choice(['uniform', 'uniform', 'ff', 'zero', 'bits', 'ramp', 'const', 'rows', 'single', 'records', 'motif', 'echo', 'hexsplit'])
+    if style == 'hexsplit':
+        # groups of four bytes that are different ways of cutting ONE string of hex digits into four numbers (01 23 05 06 / 12 03 05 06 /
+        # 01 02 35 06 ...): distinct records that any rendering without padding or separators would confuse
+        out = bytearray()
+        while len(out) < n:
+            digits = [rng.randrange(1, 16) for _ in range(rng.randrange(5, 8))]
+            splits = []
+            for _ in range(6):
+                cuts, left, grp = [], len(digits), []
+                sizes = [1, 1, 1, 1]
+                for _ in range(len(digits) - 4):
+                    sizes[rng.choice([i for i in range(4) if sizes[i] < 2])] += 1
+                pos = 0
+                for sz in sizes:
+                    v = 0
+                    for d in digits[pos:pos + sz]:
+                        v = v * 16 + d
+                    grp.append(v)
+                    pos += sz
+                splits.append(bytes(grp))
+            for g4 in splits:
+                out += g4
+        return bytes(out[:n])
+    if style == 'motif':
+        # low entropy: a random sequence over two or three short motifs (1-6 bytes each), so that what ends one record / row / pattern
+        # very often equals what starts the next, and stretches repeat at every distance
+        motifs = [bytes(rng.getrandbits(8) for _ in range(rng.randrange(1, 7))) for _ in range(rng.choice([2, 2, 3]))]
+        out = bytearray()
+        while len(out) < n:
+            out += rng.choice(motifs) * rng.choice([1, 1, 2, 5])
+        return bytes(out[:n])
+    if style == 'echo':
+        # random content in which every 68-, 64- or 128-byte record begins with a copy of the last 2, 4 or 8 bytes of the data before
+        # it (a held note, a repeated row end): coincidences ACROSS record boundaries
+        out = bytearray(rng.getrandbits(8) for _ in range(n))
+        for rec in (68, 64, 128):
+            k = rng.choice([2, 4, 8])
+            for at in range(rec, n - k, rec):
+                if rng.random() < 0.5:
+                    out[at:at + k] = out[at - k:at] if rec != 68 else out[at - 4 - k:at - 4]       # (an sfx record ends with its 4 header bytes)
+        return bytes(out)
     if style == 'records':
         # 68-byte records (sound effects), each one of: the untouched default of a new cart (no notes, speed 16), the same with speed 1
         # (sound effect 0 of a new cart), all zero, only a header, random — so that "looks unused" and "is the default" differ per record
